@@ -364,3 +364,32 @@ PROPS["C13"] = dict(
         "a panic on a memberlist goroutine kills the test binary; the driver attributes it to the journalled case",
     ],
 )
+
+C15_SITES = ["pkt:ping", "pkt:ack", "pkt:ack-with-payload", "pkt:indirectPing", "pkt:nack", "pkt:alive", "pkt:suspect", "pkt:dead", "pkt:leave", "pkt:user",
+             "stream:pushPull", "stream:user", "stream:ping", "stream:ack", "stream:err"]
+
+PROPS["C15"] = dict(
+    title="Outbound confidentiality: nothing leaves unencrypted when encryption is enforced",
+    pkg="./props/c15",
+    level="exploration",
+    rule=("4-6 real nodes with a keyring (16/24/32-byte keys), outgoing verification on, label none/'conf', protocol versions 1-5 per node, compression on/off; "
+          "the history is built to reach every send site: probes with ack payloads, one node's inbound UDP cut for 2.5 s (indirect ping requests, relayed "
+          "pings, nacks, TCP fallback pings and their acks; optionally its streams too so that suspicion, death and refutation traffic appears), "
+          "SendBestEffort, SendReliable, user gossip, UpdateNode, join and periodic push/pull in both directions, plaintext and garbage streams from an outsider "
+          "(error replies), a graceful leave, and optionally a key rotation in progress (new key installed everywhere at 4 s, each node switching at its own "
+          "instant). Oracle on every packet and every stream write handed to the transport by a real node: the cleartext label header is exactly the "
+          "configured label, the rest opens with the independent AES-GCM implementation under the sender's primary key at the send instant with the label "
+          "([type,len,label] for streams) as associated data, the encryption version matches the sender's protocol version, and a per-case canary embedded "
+          "in node names, metadata, user messages, user state and ack payloads occurs in no tapped byte string. Coverage rule: every send-site class must be "
+          "observed (otherwise inconclusive). non-trivial = more than 100 buffers checked in the case; distinct = distinct plans"),
+    tests=[
+        dict(name="conf", run="^TestOutboundConfidentiality$",
+             quick=dict(shards=16, checks=6, timeout=900),
+             thorough=dict(shards=16, checks=250, timeout=3400)),
+    ],
+    required_labels=dict(both=["TestOutboundConfidentiality/site:" + s for s in C15_SITES]),
+    assumptions=CLUSTER_ASSUMPTIONS + [
+        "'every code path' is approximated by 'every send-site class observed, every byte of every observation checked'; the static call-graph argument is outside this technique family",
+        "within 2 ms of a node's UseKey call either key is accepted as its primary",
+    ],
+)
